@@ -1,26 +1,26 @@
 (* CompiledAligned.v — the theorems about ALIGNED structures (C01 round trip, C04 declared size, C08 extension stability, C09 position
-   independence) carried over to the COMPILED reader through C03's theorem for aligned structures of scalars (Proofs/CompilerGaps.v). *)
+   independence) carried over to the COMPILED reader through C03's theorem for structures with a static layout (Proofs/CompilerStatic.v: scalars in padded blocks, nested structures, unions and arrays of them behind seeks). *)
 From Coq Require Import Lia.
 From VF Require Import Model.Writer Model.Compiler Proofs.CodecCorrect Proofs.ReaderProps Proofs.SizeProps Proofs.RoundTrip Proofs.ValueRoundTrip.
 From VF Require Proofs.AlignedSize Proofs.AlignedRoundTrip Proofs.ShiftProps.
-From VF Require Import Proofs.CompilerProps Proofs.CompilerGaps.
+From VF Require Import Proofs.CompilerProps Proofs.CompilerGaps Proofs.CompilerStatic.
 Open Scope string_scope. Open Scope list_scope. Open Scope Z_scope.
 
 Definition size_fits (c : cfg) (fs : list field) : Prop :=
   forall lay n, layout_struct c true fs = Ok lay -> l_size lay = Some n -> n <= 9223372036854775807.
 
 (* whatever the interpreted reader returns, the compiled one returns, and the other way round *)
-Lemma aligned_same_ok c fuel nm fs p : Forall (acls c) fs -> NoDup (map f_name fs) -> size_fits c fs -> compile_plan c true fs = Ok p ->
+Lemma aligned_same_ok c fuel nm fs p : Forall (stcls c fuel true) fs -> NoDup (map f_name fs) -> size_fits c fs -> compile_plan c true fs = Ok p ->
   forall s pos ctx r, 0 <= pos -> (read_compiled c fuel true fs s pos = Ok r <-> read_ty c fuel (TStruct nm fs true) s pos ctx = Ok r).
 Proof.
-  intros Hcl Hnd Hb Hp s pos ctx r H0. pose proof (compiled_aligned_is_interpreted c fuel nm fs p Hcl Hnd Hb Hp s pos ctx H0) as R.
+  intros Hcl Hnd Hb Hp s pos ctx r H0. pose proof (compiled_static_is_interpreted c fuel true nm fs p Hcl Hnd Hb Hp s pos ctx H0) as R.
   destruct (read_compiled c fuel true fs s pos), (read_ty c fuel (TStruct nm fs true) s pos ctx); cbn in R; try contradiction; [subst; tauto|].
   split; discriminate.
 Qed.
 
 (* C04: started at a multiple of its alignment, the compiled reader of an aligned structure consumes the declared size (tail padding included) *)
 Theorem compiled_aligned_consumes_size c fuel nm fs p n :
-  Forall (acls c) fs -> NoDup (map f_name fs) -> size_fits c fs -> compile_plan c true fs = Ok p ->
+  Forall (stcls c fuel true) fs -> NoDup (map f_name fs) -> size_fits c fs -> compile_plan c true fs = Ok p ->
   AlignedSize.aflat c (TStruct nm fs true) = true -> ty_size c (TStruct nm fs true) = Some n ->
   forall s pos v q, 0 <= pos -> (AlignedSize.req c (TStruct nm fs true) | pos) -> read_compiled c fuel true fs s pos = Ok (v, q) -> q = pos + n.
 Proof.
@@ -30,7 +30,7 @@ Qed.
 
 (* C01: dump a typed value of an aligned structure, parse it with the COMPILED reader: the value comes back and exactly the dump is consumed *)
 Theorem compiled_aligned_round_trip c : endian_ok (c_endian c) -> forall fuel nm fs p n,
-  Forall (acls c) fs -> NoDup (map f_name fs) -> size_fits c fs -> compile_plan c true fs = Ok p ->
+  Forall (stcls c fuel true) fs -> NoDup (map f_name fs) -> size_fits c fs -> compile_plan c true fs = Ok p ->
   AlignedSize.aflat c (TStruct nm fs true) = true -> rt_ty c (TStruct nm fs true) = true -> AlignedRoundTrip.nonempty_structs (TStruct nm fs true) = true ->
   ty_size c (TStruct nm fs true) = Some n ->
   forall v wpos bs, has_ty c (TStruct nm fs true) v -> (AlignedSize.req c (TStruct nm fs true) | wpos) -> write_ty c (TStruct nm fs true) v wpos = Ok bs ->
@@ -44,7 +44,7 @@ Qed.
 
 (* C08: what the compiled reader of an aligned structure returns from a stream it returns from every extension of it *)
 Theorem compiled_aligned_extension_stable c fuel nm fs p :
-  Forall (acls c) fs -> NoDup (map f_name fs) -> size_fits c fs -> compile_plan c true fs = Ok p -> simple (TStruct nm fs true) = true ->
+  Forall (stcls c fuel true) fs -> NoDup (map f_name fs) -> size_fits c fs -> compile_plan c true fs = Ok p -> simple (TStruct nm fs true) = true ->
   forall s1 s2 pos r, 0 <= pos -> read_compiled c fuel true fs s1 pos = Ok r -> read_compiled c fuel true fs (s1 ++ s2) pos = Ok r.
 Proof.
   intros Hcl Hnd Hb Hp Hsi s1 s2 pos r H0 H. apply (aligned_same_ok c fuel nm fs p Hcl Hnd Hb Hp _ _ [] _ H0) in H.
@@ -53,12 +53,12 @@ Qed.
 
 (* C09: the compiled reader of an aligned structure does not depend on what precedes the position it starts at *)
 Theorem compiled_aligned_position_independent pre c fuel nm fs p :
-  Forall (acls c) fs -> NoDup (map f_name fs) -> size_fits c fs -> compile_plan c true fs = Ok p -> ShiftProps.shift_ok pre c (TStruct nm fs true) = true ->
+  Forall (stcls c fuel true) fs -> NoDup (map f_name fs) -> size_fits c fs -> compile_plan c true fs = Ok p -> ShiftProps.shift_ok pre c (TStruct nm fs true) = true ->
   forall s pos, 0 <= pos -> req (read_compiled c fuel true fs (pre ++ s) (zlen pre + pos)) (ShiftProps.shift (zlen pre) (read_compiled c fuel true fs s pos)).
 Proof.
   intros Hcl Hnd Hb Hp Hsh s pos H0.
-  pose proof (compiled_aligned_is_interpreted c fuel nm fs p Hcl Hnd Hb Hp (pre ++ s) (zlen pre + pos) [] ltac:(pose proof (zlen_nonneg pre); lia)) as R1.
-  pose proof (compiled_aligned_is_interpreted c fuel nm fs p Hcl Hnd Hb Hp s pos [] H0) as R2.
+  pose proof (compiled_static_is_interpreted c fuel true nm fs p Hcl Hnd Hb Hp (pre ++ s) (zlen pre + pos) [] ltac:(pose proof (zlen_nonneg pre); lia)) as R1.
+  pose proof (compiled_static_is_interpreted c fuel true nm fs p Hcl Hnd Hb Hp s pos [] H0) as R2.
   rewrite (proj1 (ShiftProps.read_ty_shift pre c fuel _ Hsh s pos [] H0)) in R1.
   refine (req_trans _ _ _ R1 _). apply req_sym.
   destruct (read_compiled c fuel true fs s pos) as [[v q]|], (read_ty c fuel (TStruct nm fs true) s pos []) as [[v' q']|]; cbn in R2 |- *; try contradiction; auto.
